@@ -846,7 +846,7 @@ type e2Config struct {
 
 // e2RunSession traces one session, replays it and judges every distinct crash image.
 func e2RunSession(c *fw.Case, cfg e2Config) *e2Summary {
-	work := c.Dir
+	work := realDir(c.Dir) // (the traced process sees real paths: a case directory reached through a link is resolved once)
 	dbdir := filepath.Join(work, "db")
 	if cfg.directWAL {
 		dbdir = filepath.Join(c.DiskDir(), "db") // O_DIRECT needs a real file system
